@@ -266,3 +266,80 @@ func cut(s string, n int) string {
 	}
 	return s
 }
+
+// ServerText (C17, reader side): a Nacha text without file header record / file control record is
+// accepted by POST /files/create only with allowMissingFileHeader / allowMissingFileControl in
+// the query (400 without); the stored file carries the flag and holds the entries of the file
+// the text was rendered from; `build` (File.Create) answers 200 and, for the text without file
+// control, `contents` then renders a complete file the Reader accepts with the same entries.
+func ServerText(f *ach.File, variant string, r *rng.R) (fs []Fail) {
+	add := collect(&fs)
+	text, o, ok := gen.TextNeedsOpts(r, f, variant)
+	if !ok {
+		return nil
+	}
+	repo := server.NewRepositoryInMemory(0, nil)
+	svc := server.NewService(repo)
+	h := server.MakeHTTPHandler(svc, repo, kitlog.NewNopLogger())
+	do := func(method, path, ctype, body string) (code int, out []byte) {
+		defer func() {
+			if p := recover(); p != nil {
+				code, out = 599, []byte(fmt.Sprint("panic: ", p))
+			}
+		}()
+		req := httptest.NewRequest(method, path, strings.NewReader(body))
+		if ctype != "" {
+			req.Header.Set("Content-Type", ctype)
+		}
+		w := httptest.NewRecorder()
+		h.ServeHTTP(w, req)
+		b, _ := io.ReadAll(w.Result().Body)
+		return w.Code, b
+	}
+	want := EntryIDs(f, false)
+	if code, _ := do("POST", "/files/create", "text/plain", text); code == 200 || code == 201 {
+		add("server:opts:text-accepted-without-flag", "POST /files/create accepts a text without "+variant[len("text:missing-"):]+" although the flag is not given")
+	}
+	code, out := do("POST", "/files/create?"+Query(o), "text/plain", text)
+	var created struct {
+		ID string `json:"id"`
+	}
+	_ = json.Unmarshal(out, &created)
+	if (code != 200 && code != 201) || created.ID == "" {
+		add("server:opts:create-rejected", fmt.Sprintf("POST /files/create?%s of a text the Reader accepts under the flag answers %d %s", Query(o), code, errorOf(out)))
+		return
+	}
+	id := created.ID
+	code, out = do("GET", "/files/"+id, "", "")
+	var wrap struct {
+		File struct {
+			ValidateOpts *ach.ValidateOpts `json:"validateOpts"`
+		} `json:"file"`
+	}
+	_ = json.Unmarshal(out, &wrap)
+	if code != 200 || !sameFlags(wrap.File.ValidateOpts, o) {
+		add("server:opts:options-not-stored", fmt.Sprintf("GET answers %d, the stored file carries %v, created with %v", code, Flags(wrap.File.ValidateOpts), Flags(o)))
+	}
+	if code, out := do("GET", "/files/"+id+"/build", "", ""); code != 200 {
+		add("server:opts:build-failed", fmt.Sprintf("GET build answers %d %s", code, cut(string(out), 160)))
+		return
+	}
+	if variant == "text:missing-file-control-record" {
+		code, out := do("GET", "/files/"+id+"/contents", "", "")
+		if code != 200 {
+			add("server:opts:contents-failed", fmt.Sprintf("GET contents answers %d %s", code, cut(string(out), 160)))
+			return
+		}
+		rd := ach.NewReader(strings.NewReader(string(out)))
+		rd.SetValidation(o)
+		g, err := rd.Read()
+		if err != nil {
+			add("server:opts:contents-unreadable", "the contents are rejected by the Reader under the same flag: "+firstLine(err.Error()))
+			return
+		}
+		if !sameIDs(EntryIDs(&g, false), want) {
+			add("server:opts:entries-changed", "the contents do not hold the entries of the text: "+diffIDs(want, EntryIDs(&g, false)))
+		}
+	}
+	return fs
+}
